@@ -87,6 +87,12 @@ def rules(model, rep):
         if isinstance(x, ast.Assign) and isinstance(x.targets[0], ast.Subscript) and isinstance(x.targets[0].slice, ast.Constant) and isinstance(x.value, ast.Name) \
                 and isinstance(x.targets[0].value, ast.Name):
             hdr0[x.targets[0].slice.value] = x.value.id
+    # the same as one dict literal: res = {"Time (s)": t, ...}
+    for x in ast.walk(fn):
+        if isinstance(x, ast.Dict) and x.keys and all(isinstance(k, ast.Constant) and isinstance(k.value, str) for k in x.keys) and all(isinstance(v, ast.Name) for v in x.values):
+            if {"Time (s)", "Capacity (Ah)"} <= {k.value for k in x.keys}:
+                for k, v in zip(x.keys, x.values):
+                    hdr0.setdefault(k.value, v.id)
     need_h = ["Time (s)", "Capacity (Ah)", "Voltage (V)", "Resistance (Ohm)"]
     if any(h not in hdr0 for h in need_h):
         raise AnalysisError("batt_life: result columns %s not found" % [h for h in need_h if h not in hdr0])
